@@ -98,6 +98,10 @@ type Op struct {
 	// NoWait (cancel only): the next operation (a Close of an ancestor or of the provider) is started while the
 	// watcher goroutines of the cancelled context are still closing their scopes - an application shutting down
 	NoWait bool `json:"nowait,omitempty"`
+	// Derive (createscope under a parent scope, with a context id not used before): the explicit context is derived
+	// from the parent scope's own context (as in `ctx, cancel := context.WithCancel(parent.Context())`) instead of
+	// from context.Background(). Invisible to the model: it is a context of its own either way.
+	Derive bool `json:"derive,omitempty"`
 }
 
 type Inst struct {
